@@ -264,7 +264,7 @@ def canaries():
     return [
         ('split-requires-crlf', 'line-stream', lambda: mutate(LN, 'splitLines', 'LINESEP.split(buffer + s)', "__import__('re').compile(b'\\r\\n').split(buffer + s)"), None),
         ('buffer-not-kept', 'line-stream', lambda: mutate(LN.Line, '_on_read', 'lines, self.buffer = self.splitter(data, self.buffer)', "lines, self.buffer = self.splitter(data, b'')"), None),
-        ('server-buffer-shared', 'line-server', lambda: mutate(LN.Line, '_on_read', 'self.updateBuffer(sock, buffer)', 'self.updateBuffer(sock, buffer); self.buffer = buffer'), None),
+        ('server-buffer-shared', 'line-server', lambda: mutate(LN.Line, '_on_read', 'lines, buffer = self.splitter(data, self.getBuffer(sock))\n        self.updateBuffer(sock, buffer)', 'lines, buffer = self.splitter(data, self.buffer)\n        self.buffer = buffer\n        self.updateBuffer(sock, buffer)'), None),
         ('newline-check-only-last-arg', 'irc-constructors', lambda: mutate(IM.Message, '_check_args', "for arg in self.args if isinstance(arg, str) for nl in", "for arg in self.args[-1:] if isinstance(arg, str) for nl in"), None),
         ('cr-allowed-again', 'irc-constructors', lambda: mutate(IM.Message, '_check_args', "for nl in ('\\r', '\\n')):", "for nl in ('\\n',)):"), None),
     ]
